@@ -184,6 +184,10 @@ def marshal_loads(data):
 def sp_pack(o):
     if o is None or isinstance(o, (bool, int, float, complex, str)):
         return o
+    if isinstance(o, BaseException):
+        # serpent's own exception serializer (module_in_classname=True as Pyro5 calls it)
+        return {"__class__": type(o).__module__ + "." + type(o).__name__, "__exception__": True,
+                "args": sp_pack(tuple(o.args)), "attributes": sp_pack(dict(vars(o)))}
     if isinstance(o, (bytes, bytearray, memoryview)):
         return {"data": base64.b64encode(bytes(o)).decode("ascii"), "encoding": "base64"}
     if isinstance(o, tuple):
